@@ -776,3 +776,11 @@ mod test {
         huffman::decode(src, &mut buf).unwrap()
     }
 }
+
+#[cfg(feature = "verif")]
+impl Encoder {
+    /// (current dynamic table size, current limit)
+    pub fn verif_table_size(&self) -> (usize, usize) {
+        self.table.verif_size()
+    }
+}
